@@ -232,6 +232,14 @@ func (dec *Decoder) precomputeFilterStrengths() {
 		} else {
 			baseLevel = hdr.Level
 		}
+		// RFC 6386 (section 9.6 / reference decoder): the segment-adjusted
+		// level is clamped to 0..63 before the per-reference and per-mode
+		// deltas are applied.
+		if baseLevel < 0 {
+			baseLevel = 0
+		} else if baseLevel > 63 {
+			baseLevel = 63
+		}
 
 		for i4x4 := 0; i4x4 <= 1; i4x4++ {
 			info := &dec.fstrengths[s][i4x4]
